@@ -1210,3 +1210,24 @@ Definition enums_ok : bool :=
 
 Lemma enums_tied : enums_ok = true.
 Proof. vm_compute. reflexivity. Qed.
+
+(* new finding D26: an acceptor ignores a Logon received after the first one (swallowed assertion): a
+   Logon numbered above the expected number reveals a gap for which nothing is requested *)
+Definition h_relogon := [i_logon 1; i_logon 5].
+Lemma acceptor_relogon_refuted :
+  exists c w h s m now n,
+    In s (run c w h) /\ s_op s = OIn m now /\ get_int T34 m = inl n
+    /\ st (s_before s) = ST_ACTIVE /\ nin (s_before s) < n /\ validate_integrity c m (s_before s) = VOk
+    /\ s_events s = [] /\ s_after s = s_before s.
+Proof.
+  exists cfg0, w_acceptor, h_relogon.
+  eexists (nth 1 (run cfg0 w_acceptor h_relogon) (mkS w_acceptor (i_logon 1) (step cfg0 (i_logon 1) w_acceptor))).
+  eexists. exists 0, 5.
+  split; [right; left; reflexivity|].
+  split; [reflexivity|].
+  split; [vm_compute; reflexivity|].
+  split; [vm_compute; reflexivity|].
+  split; [vm_compute; reflexivity|].
+  split; [vm_compute; reflexivity|].
+  split; vm_compute; reflexivity.
+Qed.
